@@ -10,13 +10,15 @@ def parseInt (s : String) : Option Int := s.toInt?
 def mkDbl (m : Int) (e : Int) : Option Dbl :=
   if e + 1074 < 0 then none else some (m * (2 : Int) ^ (e + 1074).toNat)
 
-partial def stripTwos (m : Nat) (k : Nat) : Nat × Nat :=
-  if m != 0 && m % 2 == 0 then stripTwos (m / 2) (k + 1) else (m, k)
+/-- strip factors of two (fuel = bit length bound; a finite double has at most 2098 bits) -/
+def stripTwos : Nat → Nat → Nat → Nat × Nat
+  | 0, m, k => (m, k)
+  | fuel + 1, m, k => if m != 0 && m % 2 == 0 then stripTwos fuel (m / 2) (k + 1) else (m, k)
 
 def dblStr (d : Dbl) : String :=
   if d == 0 then "0p0"
   else
-    let (m, k) := stripTwos d.natAbs 0
+    let (m, k) := stripTwos 2200 d.natAbs 0
     s!"{if d < 0 then "-" else ""}{m}p{(k : Int) - 1074}"
 
 def optIntStr : Option Int → String
